@@ -667,6 +667,27 @@ fn two_pass_inner(w: &Workload, m: &Mat) -> ModelOut {
             overlay,
         };
     }
+    if w.entry == crate::wl::Entry::RawOutputs {
+        // the observable is the raw outputs of both passes, per solution, in order
+        let raw: Vec<Vec<(Key, Value)>> = (0..n_sols)
+            .map(|si| {
+                pass1_data[si]
+                    .iter()
+                    .chain(pass2_data[si].iter())
+                    .map(|m| (vec![], m.clone()))
+                    .collect()
+            })
+            .collect();
+        return ModelOut {
+            unusable: None,
+            expect: Expect::Ok {
+                gas: gas_total,
+                computed: raw,
+            },
+            sols: traces,
+            overlay,
+        };
+    }
     for si in 0..n_sols {
         if let Some(e) = apply_outputs(&pass2_data[si], &mut computed[si], &mut solutions[si]) {
             traces[si].failed_in_pass = Some(2);
